@@ -39,8 +39,8 @@ StampForms == {"", RE.stamp_l \o RE.stamp["Past"] \o RE.stamp_r, RE.stamp_l \o R
                RE.stamp_l \o RE.stamp["Future"] \o RE.stamp_r, RE.stamp_l \o RE.stamp["Fixed"] \o "-1" \o RE.stamp_r,
                RE.stamp_l \o RE.stamp["Fixed"] \o "+137" \o RE.stamp_r, RE.stamp_l \o RE.stamp["Fixed"] \o "0" \o RE.stamp_r,
                RE.stamp_l \o RE.stamp["Fixed"] \o "-123456789012345678901" \o RE.stamp_r}
-TruthsL == {<<>>, <<"1">>, <<"0.5", "0.9">>, <<".5", "1.", "0.25">>, <<"0.0000001", "0.123456789012345678", "1", "0">>}
-BudgetsL == {<<>>, <<"0.5">>, <<"1", "0">>, <<"0.5", "0.75", "0.4">>, <<"1", "1", "1", "1">>}
+TruthsL == {<<>>, <<"1">>, <<"0.5", "0.9">>, <<".5", "1.">>, <<"007.50", "0.10">>, <<".5", "1.", "0.25">>, <<"0.0000001", "0.123456789012345678", "1", "0">>}
+BudgetsL == {<<>>, <<"0.5">>, <<"1", "0">>, <<".5", "1.", "00">>, <<"0.5", "0.75", "0.4">>, <<"1", "1", "1", "1">>}
 SentencesL == {[term |-> t, punctuation |-> RE.punct[p], stamp |-> st, truth |-> tr] : t \in Ends, p \in PunctKinds, st \in StampForms, tr \in TruthsL}
 Vals == {[kind |-> "term", v |-> t] : t \in TermsL}
         \cup {[kind |-> "sentence", v |-> s] : s \in SentencesL}
